@@ -160,6 +160,7 @@ Proof.
   pose proof (chunk_ctor_total ty fl (slice data (pos + Z.to_nat 4) (pos + Z.to_nat cl))
                                (bytes_ok_slice _ _ _ Hok)) as Hc.
   destruct (chunk_ctor ty fl (slice data (pos + Z.to_nat 4) (pos + Z.to_nat cl))) as [r|]; [|exact IH].
+  destruct (negb (nonempty (slice data (pos + Z.to_nat 4) (pos + Z.to_nat cl))) && has_fixed_part ty); [exact I|].
   apply total_bind; [exact Hc|]. intros c. apply total_bind; [exact IH|]. intros; exact I.
 Qed.
 
